@@ -111,6 +111,9 @@ func (g *Gen) call(in ssa.Instruction, c *ssa.CallCommon, rt types.Type) Val {
 			return g.inlineCall(ci.fn, ci.binds, args, rt, pos)
 		}
 	}
+	if v, ok := g.atomicCall(key, args, rt, pos, text); ok {
+		return v
+	}
 	fc := g.E.contracts.Funcs[key]
 	if fc == nil && callee != nil && callee.Signature.Recv() != nil {
 		// promoted method through embedding: try the declaring type
@@ -211,6 +214,44 @@ func (g *Gen) applyContract(fc *FuncContract, key string, sig *types.Signature, 
 		g.assume(s)
 	}
 	return res
+}
+
+// atomicCall models sync/atomic operations on a cell as plain reads and writes
+// (sequential semantics; interleavings are not analysed).
+func (g *Gen) atomicCall(key string, args []Val, rt types.Type, pos token.Pos, text string) (Val, bool) {
+	if !strings.HasPrefix(key, "atomic.") || len(args) == 0 || args[0].Addr == nil {
+		return Val{}, false
+	}
+	name := strings.TrimPrefix(key, "atomic.")
+	elem := args[0].Addr.ElemT
+	switch {
+	case strings.HasPrefix(name, "Load"):
+		return g.load(g.cur, args[0], elem), true
+	case strings.HasPrefix(name, "Store") && len(args) == 2:
+		g.storeTo(g.cur, args[0], elem, args[1])
+		return Val{T: rt, S: "0"}, true
+	case strings.HasPrefix(name, "Add") && len(args) == 2 && isIntType(elem):
+		old := g.load(g.cur, args[0], elem)
+		var nv string
+		if g.mode == ModeBV {
+			nv = "(bvadd " + old.S + " " + args[1].S + ")"
+		} else {
+			nv = g.wrapInt(elem, "(+ "+old.S+" "+args[1].S+")")
+		}
+		n := Val{T: elem, S: g.define("atomic", g.sortOf(elem), nv)}
+		g.storeTo(g.cur, args[0], elem, n)
+		return n, true
+	case strings.HasPrefix(name, "Swap") && len(args) == 2:
+		old := g.load(g.cur, args[0], elem)
+		g.storeTo(g.cur, args[0], elem, args[1])
+		return old, true
+	case strings.HasPrefix(name, "CompareAndSwap") && len(args) == 3:
+		old := g.load(g.cur, args[0], elem)
+		eq := g.define("cas", "Bool", "(= "+old.S+" "+args[1].S+")")
+		g.storeTo(g.cur, args[0], elem, Val{T: elem, S: fmt.Sprintf("(ite %s %s %s)", eq, args[2].S, old.S)})
+		return Val{T: rt, S: eq}, true
+	}
+	return Val{}, false
 }
 
 func (g *Gen) pkgOfKey(key string) *types.Package {
